@@ -1,7 +1,11 @@
 package vc
 
 import (
+	"fmt"
 	"go/types"
+	"os"
+	"path/filepath"
+	"runtime"
 	"strings"
 
 	"golang.org/x/tools/go/ssa"
@@ -137,6 +141,9 @@ type havocEvent struct {
 	merge bool
 	preds []int
 	pcs   []Term
+	// exact classes in pats that are named only for writes to variables of the running invocation (never a pre-existing object)
+	localOnly map[string]bool
+	why   string // what caused the event (callee name, loop), for diagnostics only
 }
 
 // heapGet returns the current array of a heap class.
@@ -232,7 +239,12 @@ func (u *Unit) newEvent(st *State, all bool, pats []matcher) {
 		u.events = map[int]havocEvent{}
 	}
 	u.genCtr++
-	u.events[u.genCtr] = havocEvent{prev: st.gen, all: all, pats: pats}
+	if u.eventWhy == "" && os.Getenv("VERIF_DEBUG") != "" {
+		_, file, line, _ := runtime.Caller(2)
+		u.eventWhy = fmt.Sprintf("engine %s:%d", filepath.Base(file), line)
+	}
+	u.events[u.genCtr] = havocEvent{prev: st.gen, all: all, pats: pats, why: u.eventWhy}
+	u.eventWhy = ""
 	st.gen = u.genCtr
 	for c := range st.heap {
 		if all != matchAny(pats, c) {
